@@ -131,7 +131,7 @@ def inputs(ctx, h, which, selfcheck=True):
         out.append(("dates", p))
     if "doc" in which:
         if ctx.prop in ("C14", "C15", "C20", "C04"):
-            models = [(3, 2, 1, "doc-n3p2"), (2, 3, 2, "doc-n2p3r")] if ctx.quick else [(3, 3, 2, "doc-n3p3r")]
+            models = [(3, 2, 1, "doc-n3p2"), (2, 3, 3, "doc-n2p3r")] if ctx.quick else [(3, 3, 2, "doc-n3p3r"), (2, 3, 3, "doc-n2p3x")]
             for (n, pth, rich, tag) in models:
                 recs = gen_doc_cases(ctx, n, pth, rich, tag)
                 p = ctx.path(tag + ".ndjson")
@@ -146,11 +146,11 @@ def inputs(ctx, h, which, selfcheck=True):
                 out.append((tag, p))
             return out
         if ctx.prop == "C09":
-            models = [(3, 3, 0, "doc-n3p3v0"), (2, 3, 2, "doc-n2p3r")] if ctx.quick else \
-                     [(4, 2, 1, "doc-n4p2"), (3, 3, 2, "doc-n3p3r")]
+            models = [(3, 3, 0, "doc-n3p3v0"), (2, 3, 3, "doc-n2p3r")] if ctx.quick else \
+                     [(4, 2, 1, "doc-n4p2"), (3, 3, 2, "doc-n3p3r"), (2, 3, 3, "doc-n2p3x")]
         else:
-            models = [(3, 2, 1, "doc-n3p2"), (2, 3, 2, "doc-n2p3r")] if ctx.quick else \
-                     [(3, 3, 2, "doc-n3p3r")]
+            models = [(3, 2, 1, "doc-n3p2"), (2, 3, 3, "doc-n2p3r")] if ctx.quick else \
+                     [(3, 3, 2, "doc-n3p3r"), (2, 3, 3, "doc-n2p3x")]
         if ctx.prop == "C03":   # repeated key segments spelled identically: exact equality must hold
             models = [m + (True,) for m in models] + [models[-1]]
         for m in models:
